@@ -224,3 +224,7 @@ def eqnode_b(x='D', y='D'):
 
 def eqpos(p0='D', /, a='D', *va, k='D', **kw):
   return vfx.rec('eqpos', locals())
+
+
+def eq3(x='D', y='D', z='D'):
+  return vfx.rec('eq3', locals())
